@@ -325,6 +325,17 @@ func valueToColor(value, s, v float64) openrgb.Color {
 	}
 }
 
+// allKeys returns the keys of a mapping, whichever handler of the device reports them
+func allKeys(m config.KeyMapping) map[evdev.EvCode]config.Key {
+	keys := make(map[evdev.EvCode]config.Key)
+	for _, sub := range m.Midi {
+		for code, key := range sub {
+			keys[code] = key
+		}
+	}
+	return keys
+}
+
 func (d *Device) handleOpenrgb(ctx context.Context, wg *sync.WaitGroup) {
 	defer wg.Done()
 
@@ -435,12 +446,15 @@ func (d *Device) handleOpenrgb(ctx context.Context, wg *sync.WaitGroup) {
 
 	for _, m := range d.config.KeyMappings {
 		var midiKeyMapping = make(map[byte][]evdev.EvCode)
-		for code, key := range m.Midi[""] {
-			_, ok := midiKeyMapping[key.Note]
-			if !ok {
-				midiKeyMapping[key.Note] = []evdev.EvCode{code}
-			} else {
-				midiKeyMapping[key.Note] = append(midiKeyMapping[key.Note], code)
+		// keys of every handler of the keyboard (media keys arrive on "Consumer Control")
+		for _, keys := range m.Midi {
+			for code, key := range keys {
+				_, ok := midiKeyMapping[key.Note]
+				if !ok {
+					midiKeyMapping[key.Note] = []evdev.EvCode{code}
+				} else {
+					midiKeyMapping[key.Note] = append(midiKeyMapping[key.Note], code)
+				}
 			}
 		}
 		MidiKeyMappings = append(MidiKeyMappings, midiKeyMapping)
@@ -590,7 +604,7 @@ root:
 		var hsvOfsset float64
 
 		// keyboard mapping
-		for code, key := range d.config.KeyMappings[d.mapping].Midi[""] {
+		for code, key := range allKeys(d.config.KeyMappings[d.mapping]) {
 			id, ok := indexMap[code]
 			if !ok {
 				continue
